@@ -4,9 +4,10 @@ Strings travel as hex of their UTF-8 bytes (`-` = empty, `~` = absent optional f
 -/
 import Driver.Common
 import Cascette.Model.RibbitFmt
+import Cascette.Model.RibbitConn
 import Cascette.Spec.Sha256Fips
 open Cascette Drv
-open Cascette.Model.Bpsv Cascette.Model.Ribbit
+open Cascette.Model.Bpsv Cascette.Model.Ribbit Cascette.Model.RibbitConn
 
 def bytesOfNats (l : List Nat) : ByteArray := ByteArray.mk (l.map (·.toUInt8)).toArray
 
@@ -88,6 +89,52 @@ def kv (pre : String) (t : String) : Option String :=
 
 def endpointStr (ep : String) : Str := ep.toList
 
+
+def decUtf8 (bs : List Nat) : Option Str := (String.fromUTF8? (bytesOfNats bs)).map (·.toList)
+
+def sharedOf (sv : Server) (sq : Nat) : Shared := ⟨decUtf8, H, sv, sq⟩
+
+/-- `reply:<bytes>:<first 16 bytes>` / `closed`. -/
+def showOut : Out → String
+  | .closed => "closed"
+  | .reply r =>
+    let bs := (String.ofList r).toUTF8.toList.map (·.toNat)
+    s!"reply:{bs.length}:{hexOfNats (bs.take 16)}"
+
+structure Sched where
+  σ : Conns := []
+  outs : List (Nat × Out) := []
+  res : List String := []
+
+def Sched.ev (sh : Shared) (sc : Sched) (i : Nat) (e : Ev) : Sched :=
+  let r := srvStep sh sc.σ i e
+  { sc with σ := r.1, outs := sc.outs ++ r.2.toList }
+
+/-- one token of a `sched` line: `d<i>:<hex>` bytes arrive on socket i, `e<i>` half-close,
+`r<i>` read socket i to its end (→ one result), `T` the read timeout passes for every socket
+accepted so far. -/
+def schedTok (sh : Shared) (sc : Sched) (tok : String) : Option Sched :=
+  match tok.toList with
+  | ['T'] => some ((sc.σ.map (·.1)).eraseDups.foldl (fun a i => a.ev sh i .timeout) sc)
+  | 'd' :: rest =>
+    match (String.ofList rest).splitOn ":" with
+    | [i, hx] =>
+      match i.toNat?, parseHexNat hx with
+      | some i, some bs => some (sc.ev sh i (.data bs))
+      | _, _ => none
+    | _ => none
+  | 'e' :: rest => (String.ofList rest).toNat?.map fun i => sc.ev sh i .eof
+  | 'r' :: rest =>
+    (String.ofList rest).toNat?.map fun i =>
+      let sc := { sc with σ := (i, getConn sc.σ i) :: sc.σ }
+      match outsOf i sc.outs with
+      | o :: _ => { sc with res := sc.res ++ [showOut o] }
+      | [] => { sc with res := sc.res ++ ["pending"] }
+  | _ => none
+
+def runSched (sh : Shared) (toks : List String) : Option Sched :=
+  toks.foldlM (schedTok sh) {}
+
 def step (st : St) : List String → St × String
   | ["begin", sq, h, p] =>
     match (kv "seqn=" sq).bind String.toNat?, (kv "hosts=" h).bind strField, (kv "path=" p).bind strField with
@@ -130,10 +177,9 @@ def step (st : St) : List String → St × String
   | ["conn", sq, b] =>
     match st.server, sq.toNat?, parseHexNat b with
     | some sv, some sq, some bs =>
-      let line := (String.fromUTF8? (bytesOfNats (firstLine bs))).map (·.toList)
-      (st, match handleConnection H sv sq line with
-        | some r => "ok " ++ hexOfStr r
-        | none => "closed")
+      (st, match connAnswer (sharedOf sv sq) bs with
+        | .reply r => "ok " ++ hexOfStr r
+        | .closed => "closed")
     | _, _, _ => (st, "bad-op")
   | ["hold", b] =>
     match st.server, parseHexNat b with
@@ -154,12 +200,15 @@ def step (st : St) : List String → St × String
   | ["client", tr, p, ep] =>
     match st.server, strField p with
     | some sv, some p =>
-      let path := ("products/" ++ String.ofList p ++ "/" ++ ep).toList
-      let r :=
-        if tr == "v1" then some (clientTcp H (tcpExchange H sv st.seqn ("v1/".toList ++ path)))
-        else if tr == "v2" then some (clientTcp H (tcpExchange H sv st.seqn ("v2/".toList ++ path)))
-        else if tr == "http" then some (clientHttp (handleHttp sv st.seqn ('/' :: p ++ '/' :: ep.toList)))
-        else none
+      let t : Option Transport :=
+        if tr == "v1" then some .v1 else if tr == "v2" then some .v2
+        else if tr == "http" then some .http else none
+      -- a known endpoint name goes through `Req`/`respond`; any other text through `respondTo`
+      -- with the endpoint string the harness hands to the client
+      let r := t.map fun t =>
+        match parseEndpoint ep.toList with
+        | some e => query H (respond H sv st.seqn ⟨t, p, e⟩)
+        | none => query H (respondTo H sv st.seqn t (t.ver ++ "/products/".toList ++ p ++ '/' :: ep.toList))
       (st, match r with
         | some r => showClient (some st.seqn) false r
         | none => "bad-op")
@@ -168,19 +217,25 @@ def step (st : St) : List String → St × String
     match st.server with
     | some sv =>
       (st, showClient (some st.seqn) true
-        (clientTcp H (tcpExchange H sv st.seqn "v1/summary".toList)))
+        (query H (respondSummary H sv st.seqn)))
     | none => (st, "bad-op")
   | ["clientx", _, _, _] => (st, if st.server.isSome then "skip" else "bad-op")
   | ["storm", _, reqs] =>
     match st.server, (reqs.splitOn ",").mapM parseHexNat with
     | some sv, some rs =>
       let one (bs : List Nat) : String :=
-        let line := (String.fromUTF8? (bytesOfNats (firstLine bs))).map (·.toList)
-        match handleConnection H sv st.seqn line with
-        | some r => s!"reply:{(String.ofList r).utf8ByteSize}"
-        | none => "closed"
+        match connAnswer (sharedOf sv st.seqn) bs with
+        | .reply r => s!"reply:{(String.ofList r).utf8ByteSize}"
+        | .closed => "closed"
       (st, ",".intercalate (rs.map one))
     | _, _ => (st, "bad-op")
+  | ["sched", evs] =>
+    match st.server with
+    | some sv =>
+      (st, match runSched (sharedOf sv st.seqn) (evs.splitOn ",") with
+        | some sc => if sc.res.isEmpty then "-" else ",".intercalate sc.res
+        | none => "bad-op")
+    | none => (st, "bad-op")
   | ["sha", b] =>
     match parseHexNat b with
     | some bs => (st, String.ofList (Spec.Sha256Fips.hexDigest (bytesOfNats bs)))
